@@ -175,6 +175,9 @@ define_ops! {
     nt_from_str_radix = |s: ST, r: W| pair(|| <Uint<B, L> as num_traits::Num>::from_str_radix(&s, r as u32), || Uint::<B, L>::from_str_radix(&s, r as u32 as u64));
     nt_pow = |a: U, e: U| pair(|| num_traits::Pow::pow(a, e), || Uint::pow(a, e));
     nt_to_primitive = |a: U| pair(|| (num_traits::ToPrimitive::to_i64(&a), num_traits::ToPrimitive::to_u64(&a), num_traits::ToPrimitive::to_i128(&a), num_traits::ToPrimitive::to_u128(&a)), || (i64::try_from(a).ok(), u64::try_from(a).ok(), i128::try_from(a).ok(), u128::try_from(a).ok()));
+    // the narrow forms (provided by num-traits through the 64-bit methods today - or generated, if someone writes them out)
+    nt_to_primitive_narrow = |a: U| pair(|| (num_traits::ToPrimitive::to_isize(&a), num_traits::ToPrimitive::to_i8(&a), num_traits::ToPrimitive::to_i16(&a), num_traits::ToPrimitive::to_i32(&a), num_traits::ToPrimitive::to_usize(&a), num_traits::ToPrimitive::to_u8(&a), (num_traits::ToPrimitive::to_u16(&a), num_traits::ToPrimitive::to_u32(&a))), || (isize::try_from(a).ok(), i8::try_from(a).ok(), i16::try_from(a).ok(), i32::try_from(a).ok(), usize::try_from(a).ok(), u8::try_from(a).ok(), (u16::try_from(a).ok(), u32::try_from(a).ok())));
+    nt_from_narrow = |v: I| pair(|| (<Uint<B, L> as num_traits::FromPrimitive>::from_isize(v as isize), <Uint<B, L> as num_traits::FromPrimitive>::from_i8(v as i8), <Uint<B, L> as num_traits::FromPrimitive>::from_i16(v as i16), <Uint<B, L> as num_traits::FromPrimitive>::from_i32(v as i32), <Uint<B, L> as num_traits::FromPrimitive>::from_usize(v as usize), <Uint<B, L> as num_traits::FromPrimitive>::from_u8(v as u8), (<Uint<B, L> as num_traits::FromPrimitive>::from_u16(v as u16), <Uint<B, L> as num_traits::FromPrimitive>::from_u32(v as u32))), || (Uint::<B, L>::try_from(v as isize).ok(), Uint::<B, L>::try_from(v as i8).ok(), Uint::<B, L>::try_from(v as i16).ok(), Uint::<B, L>::try_from(v as i32).ok(), Uint::<B, L>::try_from(v as usize).ok(), Uint::<B, L>::try_from(v as u8).ok(), (Uint::<B, L>::try_from(v as u16).ok(), Uint::<B, L>::try_from(v as u32).ok())));
     nt_from_u = |v: W128| pair(|| (<Uint<B, L> as num_traits::FromPrimitive>::from_u64(v as u64), <Uint<B, L> as num_traits::FromPrimitive>::from_u128(v), <Uint<B, L> as num_traits::NumCast>::from(v), <Uint<B, L> as num_traits::NumCast>::from(v as u64)), || (Uint::<B, L>::try_from(v as u64).ok(), Uint::<B, L>::try_from(v).ok(), Uint::<B, L>::try_from(v).ok(), Uint::<B, L>::try_from(v as u64).ok()));
     nt_from_i = |v: I| pair(|| (<Uint<B, L> as num_traits::FromPrimitive>::from_i64(v as i64), <Uint<B, L> as num_traits::FromPrimitive>::from_i128(v), <Uint<B, L> as num_traits::NumCast>::from(v)), || (Uint::<B, L>::try_from(v as i64).ok(), Uint::<B, L>::try_from(v).ok(), Uint::<B, L>::try_from(v).ok()));
     pi_counts = |a: U| pair(|| (num_traits::PrimInt::count_ones(a), num_traits::PrimInt::count_zeros(a), num_traits::PrimInt::leading_zeros(a), num_traits::PrimInt::leading_ones(a), num_traits::PrimInt::trailing_zeros(a), num_traits::PrimInt::trailing_ones(a)), || (Uint::count_ones(&a), Uint::count_zeros(&a), Uint::leading_zeros(&a), Uint::leading_ones(&a), Uint::trailing_zeros(&a), Uint::trailing_ones(&a)));
@@ -259,7 +262,7 @@ const BIN_SHAPED: &[Op] = &[Op::op_add, Op::op_sub, Op::op_mul, Op::op_div, Op::
 const UN: &[Op] = &[
     Op::bits_reverse_bits, Op::bits_as_le_bytes, Op::bits_to_be_bytes_vec, Op::bits_to_le_bytes, Op::bits_to_be_bytes, Op::bits_leading_zeros, Op::bits_leading_ones,
     Op::bits_trailing_zeros, Op::bits_trailing_ones, Op::bits_from_limbs, Op::bits_as_limbs, Op::nt_is_zero, Op::nt_to_le_bytes, Op::nt_to_be_bytes, Op::nt_checked_neg,
-    Op::nt_inv, Op::nt_wrapping_neg, Op::nt_to_primitive, Op::pi_counts, Op::pi_reverse_bits, Op::pi_swap_bytes, Op::ni_even_odd, Op::ni_inc_dec, Op::zeroize, Op::bits_debug,
+    Op::nt_inv, Op::nt_wrapping_neg, Op::nt_to_primitive, Op::nt_to_primitive_narrow, Op::pi_counts, Op::pi_reverse_bits, Op::pi_swap_bytes, Op::ni_even_odd, Op::ni_inc_dec, Op::zeroize, Op::bits_debug,
 ];
 const SHIFT_N: &[Op] = &[
     Op::bits_checked_shl, Op::bits_checked_shr, Op::bits_overflowing_shl, Op::bits_overflowing_shr, Op::bits_wrapping_shl, Op::bits_wrapping_shr,
@@ -510,6 +513,8 @@ fn c20(r: &Runner) {
             exec(l, bits, Op::nt_from_u, &[V::N(us[i])]);
             exec(l, bits, Op::nt_from_i, &[V::I(us[i] as i128)]);
             exec(l, bits, Op::nt_from_i, &[V::I((us[i] as i128).wrapping_neg())]);
+            exec(l, bits, Op::nt_from_narrow, &[V::I(us[i] as i128)]);
+            exec(l, bits, Op::nt_from_narrow, &[V::I((us[i] as i128).wrapping_neg())]);
         });
         r.universe_seq("Zero / One / Bounded constants", bits, |l| {
             l.states(1);
